@@ -453,7 +453,7 @@ class IntegerFieldFormat(AbstractFieldFormat):
                 # For fixed data format, use an implicit range starting from
                 # 1 to take into account that leading and trailing blanks
                 # might be missing from the rule parts.
-                if self.length.lower_limit != self.length.upper_limit:
+                if (self.length.lower_limit is None) or (self.length.lower_limit != self.length.upper_limit):
                     raise errors.InterfaceError(
                         "length of fixed format field must be a specific number but is: %s" % self.length
                     )
